@@ -15,7 +15,7 @@ static const double UR = 1.1102230246251565e-16;  // unit roundoff 2^-53
 static const double NaN = std::numeric_limits<double>::quiet_NaN();
 
 // ------------------------------------------------------------------------------------------------ objective description
-enum Kind { QUAD = 0, COSH = 1, QUART = 2, LSE = 3 };
+enum Kind { QUAD = 0, COSH = 1, QUART = 2, LSE = 3, LOGCOSH = 4 };
 
 struct Spec {
   int kind = QUAD;
@@ -51,6 +51,11 @@ inline double evalSpec(const Spec& s, const double* x) {
       double q4 = 0; for (int i = 0; i < n; ++i) q4 += d[i] * d[i] * d[i] * d[i];
       return s.c + 0.5 * acc + q4;
     }
+    case LOGCOSH: {  // sum_i log cosh(2 (x_i - m_i)) + c: smooth, strictly convex, minimum c at m; its curvature 4 sech^2 vanishes away from m, so a
+                     // raw Newton step from |x_i - m_i| >= 2.5 overshoots by orders of magnitude (the step-halving safeguards are exercised)
+      double acc = 0; for (int i = 0; i < n; ++i) { double u = std::fabs(2 * (x[i] - s.m[i])); acc += u + std::log1p(std::exp(-2 * u)) - 0.6931471805599453; }
+      return s.c + acc;
+    }
     default: {     // LSE: log sum_i (exp(d_i) + exp(-d_i)): log-sum-exp of the 2n affine forms +-(x_i - m_i); minimum log(2n) at m
       double acc = 0; for (int i = 0; i < n; ++i) { double d = x[i] - s.m[i]; acc += std::exp(d) + std::exp(-d); }
       return std::log(acc);
@@ -64,6 +69,7 @@ inline double gradSpec(const Spec& s, const double* x, int i) {
     case QUAD: { double r = 0; for (int j = 0; j < n; ++j) r += s.q(i, j) * (x[j] - s.m[j]); return r; }
     case COSH: { double a = (i % 2) ? 0.5 : 1.0; return a * std::sinh(a * (x[i] - s.m[i])); }
     case QUART: { double r = 0; for (int j = 0; j < n; ++j) r += s.q(i, j) * (x[j] - s.m[j]); double d = x[i] - s.m[i]; return r + 4 * d * d * d; }
+    case LOGCOSH: return 2 * std::tanh(2 * (x[i] - s.m[i]));
     default: { double acc = 0; for (int k = 0; k < n; ++k) { double d = x[k] - s.m[k]; acc += std::exp(d) + std::exp(-d); }
                double d = x[i] - s.m[i]; return (std::exp(d) - std::exp(-d)) / acc; }
   }
@@ -75,6 +81,7 @@ inline double hessSpec(const Spec& s, const double* x, int i, int j) {
     case QUAD: return s.q(i, j);
     case COSH: { if (i != j) return 0; double a = (i % 2) ? 0.5 : 1.0; return a * a * std::cosh(a * (x[i] - s.m[i])); }
     case QUART: { double d = x[i] - s.m[i]; return s.q(i, j) + (i == j ? 12 * d * d : 0); }
+    case LOGCOSH: { if (i != j) return 0; double t = std::tanh(2 * (x[i] - s.m[i])); return 4 * (1 - t * t); }
     default: { double acc = 0; for (int k = 0; k < n; ++k) { double d = x[k] - s.m[k]; acc += std::exp(d) + std::exp(-d); }
                double di = x[i] - s.m[i], dj = x[j] - s.m[j];
                double gi = (std::exp(di) - std::exp(-di)) / acc, gj = (std::exp(dj) - std::exp(-dj)) / acc;
